@@ -153,4 +153,8 @@ pub mod verif {
     pub fn recognize_http(method: &str, path: &str) -> Result<Proxy, anyhow::Error> {
         super::recognize_http(method, path)
     }
+
+    pub fn check_address(address: super::Address) -> anyhow::Result<super::Address> {
+        super::check_address(address)
+    }
 }
